@@ -217,7 +217,7 @@ class CFG:
         # an unknown class: assume an Exception subclass (pedal defines no BaseException-only classes)
         return frozenset([Exception])
 
-    def _handler_atoms(self, type_expr):
+    def _handler_atoms(self, type_expr, depth=0):
         if type_expr is None:
             return ALL_EXC
         exprs = type_expr.elts if isinstance(type_expr, ast.Tuple) else [type_expr]
@@ -232,6 +232,16 @@ class CFG:
                 r = self.handler_type(e)
                 if r is not None:
                     out |= frozenset(r)
+                    continue
+            # a module-level constant naming the classes: _REPORTED = (Exception, SystemExit)
+            mod = getattr(self.fn, '_module', None)
+            if mod is not None and name and '.' not in name and depth < 3:
+                try:
+                    value = mod.top_assign(name)
+                except AnalysisError:
+                    value = None
+                if value is not None:
+                    out |= self._handler_atoms(value, depth + 1)
                     continue
             raise AnalysisError("handler type %s does not resolve to a builtin exception class" % norm(e))
         return frozenset(out)
